@@ -115,6 +115,7 @@ type FnVerifier struct {
 	axiomsDone map[string]bool
 	lockOf     map[ssa.Value]string
 	sentinels  map[string]bool
+	strApps    map[string]string
 	targets    []frameTarget
 	decVals    map[*ssa.BasicBlock]Val
 }
@@ -127,6 +128,16 @@ func (fv *FnVerifier) note(s string) {
 // Sorts
 
 func typeKey(t types.Type) string {
+	t = types.Unalias(t)
+	if b, ok := t.(*types.Basic); ok && b.Kind() < types.UntypedBool && int(b.Kind()) < len(types.Typ) {
+		return types.Typ[b.Kind()].Name() // byte -> uint8, rune -> int32
+	}
+	s := typeKeyRaw(t)
+	s = strings.ReplaceAll(s, "[]byte", "[]uint8")
+	return s
+}
+
+func typeKeyRaw(t types.Type) string {
 	return types.TypeString(t, func(p *types.Package) string {
 		// short but unambiguous enough: last two path elements
 		parts := strings.Split(p.Path(), "/")
